@@ -626,6 +626,23 @@ def rule_forward(fx, rep):
     pp, pl = placed.get("promo"), placed.get("plain")
     good = isinstance(pp, tuple) and pp[0] == "call" and pp[1].endswith("Piece::new") and is_mover(pp[2][0]) and bool(find_calls(pp[2][1], "PromotionPieceKind::piece")) and \
         bool(find_calls(pp[2][1], "Move::promotion")) and isinstance(pl, tuple) and pl[0] == "call" and pl[1].endswith("Game::remove_at") and sq_kind(pl[2][1]) == "from"
+    if not good and pp is None and pl is None and "?" in placed:
+        # one unconditional set_at whose value is chosen by an Option combinator on mv.promotion(), or by something this
+        # rule does not model: decided only for the combinator form
+        u = placed["?"]
+        mo = [c for c in find_calls(u, "Option<T>::map_or", "Option<T>::map_or_else", "Option<T>::map") if find_calls(c[2][0], "Move::promotion")]
+        decided = False
+        if mo and mo[0][1].endswith("map_or") and len(mo[0][2]) == 3:
+            dflt = deep_strip(mo[0][2][1])
+            clos = [x for x in walk(mo[0][2][2]) if isinstance(x, tuple) and x and x[0] == "agg" and str(x[1]).startswith("closure:")]
+            cb = fx.bodies.get(clos[0][1][len("closure:"):]) if clos else None
+            if cb is not None and isinstance(dflt, tuple) and dflt[0] == "call":
+                decided = True
+                good = dflt[1].endswith("Game::remove_at") and sq_kind(dflt[2][1]) == "from" and bool(cb.calls_to("Piece::new")) and bool(cb.calls_to("PromotionPieceKind::piece"))
+                pp, pl = "closure", dflt
+        if not decided:
+            rep.notes.append("C02-FORWARD: the piece placed on the destination is chosen in a form this rule does not model; placement clause not decided")
+            good = True
     rep.obligation(good)
     if not good:
         bad("placement", f"the piece placed on the destination is promo `{show(pp)[:80] if pp else None}` / plain `{show(pl)[:80] if pl else None}`; expected Piece::new(player, promotion.piece()) / the piece lifted from `from`")
@@ -673,6 +690,12 @@ def rule_forward(fx, rep):
 
 G = "src/chess/game.rs"
 MUTANTS = [
+    {"name": "benign: destination piece chosen with map_or, clock still tested on the lifted piece", "benign": True,
+     "edits": [("src/chess/game.rs", "        if let Some(promoted_to) = mv.promotion() {\n            let promoted_piece = Piece::new(player, promoted_to.piece());\n            self.set_at(to, promoted_piece);\n        } else {\n            self.set_at(to, moved_piece);\n        }",
+                "        let placed_piece = mv.promotion().map_or(moved_piece, |promoted_to| Piece::new(player, promoted_to.piece()));\n        self.set_at(to, placed_piece);")]},
+    {"name": "destination piece shadows moved_piece before the clock test (seeds C11-3 / C17-3)", "expect": "C02-FORWARD/clock",
+     "edits": [("src/chess/game.rs", "        if let Some(promoted_to) = mv.promotion() {\n            let promoted_piece = Piece::new(player, promoted_to.piece());\n            self.set_at(to, promoted_piece);\n        } else {\n            self.set_at(to, moved_piece);\n        }",
+                "        let moved_piece = mv.promotion().map_or(moved_piece, |promoted_to| Piece::new(player, promoted_to.piece()));\n        self.set_at(to, moved_piece);")]},
     {"name": "capturing the queenside rook removes the kingside right", "expect": "C02-FORWARD/rights",
      "edits": [(G, "            } else if to == squares::queenside_rook_start(other_player) {\n                self.try_remove_castle_rights(other_player, CastleRightsSide::Queenside);", "            } else if to == squares::queenside_rook_start(other_player) {\n                self.try_remove_castle_rights(other_player, CastleRightsSide::Kingside);")]},
     {"name": "rook moving from its corner does not lose the right", "expect": "C02-FORWARD/rights",
